@@ -6,6 +6,7 @@ import (
 	"fmt"
 	"regexp"
 	"sort"
+	"strconv"
 	"strings"
 
 	"golang.org/x/tools/go/ssa"
@@ -577,26 +578,66 @@ func c19d(c *Ctx) {
 		"switch": "SWITCH", "case": "CASE", "default": "DEFAULT", "global": "GLOBAL", "local": "LOCAL", "poryswitch": "PORYSWITCH",
 		"const": "CONST", "value": "VALUE", "moves": "MOVES",
 	}
-	for k, w := range want {
-		c.Check(tbl[k] == w, "keyword["+k+"]", "token/token.go", k+" -> "+w, fmt.Sprintf("keyword %q maps to %q, expected %q", k, tbl[k], w))
+	// the effective classification is what GetIdentType returns: the table for a successful
+	// lookup, plus spellings it decides itself (`case "true", "TRUE": return TRUE`)
+	eff := map[string]string{}
+	okHit, okMiss := false, false
+	fn := c.Fn("token.GetIdentType")
+	if fn != nil {
+		for _, r := range c.flatReturns(fn) {
+			v := r.terms[0]
+			switch {
+			case v == "@token.keywords[$0]#0":
+				all := len(r.cond.cs) > 0
+				for _, cj := range r.cond.cs {
+					if !hasLit(cj, "+@token.keywords[$0]#1") {
+						all = false
+					}
+				}
+				if all {
+					okHit = true
+					for k, t := range tbl {
+						if _, set := eff[k]; !set {
+							eff[k] = t
+						}
+					}
+				}
+			case v == `"IDENT"`:
+				all := len(r.cond.cs) > 0
+				for _, cj := range r.cond.cs {
+					if !hasLit(cj, "-@token.keywords[$0]#1") {
+						all = false
+					}
+				}
+				okMiss = okMiss || all
+			case strings.HasPrefix(v, `"`):
+				typ, _ := strconv.Unquote(v)
+				for _, cj := range r.cond.cs {
+					spelled := false
+					for _, l := range cj {
+						if strings.HasPrefix(l, `+($0 == "`) && strings.HasSuffix(l, `")`) {
+							eff[strings.TrimSuffix(strings.TrimPrefix(l, `+($0 == "`), `")`)] = typ
+							spelled = true
+						}
+					}
+					if !spelled {
+						c.Bad("GetIdentType/constant-return", c.W.Pos(r.ret.Pos()), "GetIdentType returns "+v+" on a path that does not test the identifier against a spelling")
+					}
+				}
+			default:
+				c.Bad("GetIdentType/return", c.W.Pos(r.ret.Pos()), "GetIdentType returns "+pretty(v)+", which is neither a table lookup, a constant type nor IDENT")
+			}
+		}
 	}
-	for k, v := range tbl {
+	for k, w := range want {
+		c.Check(eff[k] == w, "keyword["+k+"]", "token/token.go", k+" -> "+w, fmt.Sprintf("keyword %q maps to %q, expected %q", k, eff[k], w))
+	}
+	for k, v := range eff {
 		if _, ok := want[k]; !ok {
 			c.Bad("keyword["+k+"]", "token/token.go", fmt.Sprintf("undocumented keyword %q -> %q (an identifier spelled like this would stop being an identifier)", k, v))
 		}
 	}
-	if fn := c.Fn("token.GetIdentType"); fn != nil {
-		okHit, okMiss := false, false
-		for _, r := range returnsOf(fn) {
-			v := c.term(fn, r.Results[0])
-			must := c.mustLits(fn, r.Block())
-			if v == "@token.keywords[$0]#0" && hasLit(must, "+@token.keywords[$0]#1") {
-				okHit = true
-			}
-			if v == `"IDENT"` && hasLit(must, "-@token.keywords[$0]#1") {
-				okMiss = true
-			}
-		}
+	if fn != nil {
 		c.Check(okHit && okMiss, "GetIdentType/lookup", c.W.FuncPos(fn), "keyword type if listed, IDENT otherwise", "GetIdentType is not (keywords[ident] if present else IDENT)")
 	}
 }
